@@ -90,6 +90,23 @@ def scan_module_global(tree, rel):
                 tgt = n.target.id
             if tgt and tgt in mod_mut and (tgt not in local or tgt in globs):
                 out.append(('modstate:%s' % tgt, n.lineno, 'function mutates module-level object `%s`' % tgt, fn.name))
+    # an object constructed in a class body is one object for all instances: used through self it is state shared by every operator / monitor of that class
+    for cd in [n for n in ast.walk(tree) if isinstance(n, ast.ClassDef)]:
+        for st in cd.body:
+            if isinstance(st, ast.Assign) and isinstance(st.value, ast.Call) and not _is_mutable_expr(st.value):
+                f_ = st.value.func
+                cname = f_.id if isinstance(f_, ast.Name) else (f_.attr if isinstance(f_, ast.Attribute) else None)
+                if cname in IMMUTABLE_CALLS or cname in ('property', 'staticmethod', 'classmethod', 'namedtuple', 'TypeVar', 'Enum', 'auto', 'compile', 'getLogger'):
+                    continue
+                for t in st.targets:
+                    if isinstance(t, ast.Name):
+                        used = [n for fn in cd.body if isinstance(fn, ast.FunctionDef) for n in ast.walk(fn)
+                                if isinstance(n, ast.Attribute) and n.attr == t.id and isinstance(n.value, ast.Name) and n.value.id in ('self', 'cls', cd.name)]
+                        assigned = any(isinstance(n, ast.Attribute) and isinstance(n.ctx, ast.Store) and n.attr == t.id and isinstance(n.value, ast.Name) and n.value.id == 'self'
+                                       for fn in cd.body if isinstance(fn, ast.FunctionDef) for n in ast.walk(fn))
+                        if used and not assigned:
+                            out.append(('clsobj:%s.%s' % (cd.name, t.id), st.lineno, 'the class body builds one `%s` object (`%s`) that every instance of %s uses through self: what it remembers '
+                                        '(operand buffers, last output) is shared by all operators of that class in the process' % (cname, t.id, cd.name), '%s.%s' % (cd.name, t.id)))
     # class-level mutable attributes mutated through self/cls
     for cd in [n for n in ast.walk(tree) if isinstance(n, ast.ClassDef)]:
         cls_mut = {}
@@ -259,7 +276,7 @@ def fixture_selfcheck(rep):
     tree = ast.parse(open(p).read())
     g = scan_module_global(tree, 'fixture')
     s = scan_module_setiter(tree, 'fixture', set_typed_attrs(tree))
-    want_g = {'modstate:CACHE', 'global:COUNTER', 'default:collect', 'clsstate:Shared.table', 'cached:the_interpreter'}
+    want_g = {'modstate:CACHE', 'global:COUNTER', 'default:collect', 'clsstate:Shared.table', 'cached:the_interpreter', 'clsobj:TimedSince.andop'}
     if any(h[0] == 'cached:the_interpreter_class' for h in g):
         raise AnalysisError('negative fixture matched: a cached class factory was reported')
     want_s = {'setiter:self.free_vars', 'order-by-id'}
